@@ -26,21 +26,24 @@ theorem get?_set (d : Dict β) (k k' : String) (v : β) :
   induction d with
   | nil =>
     simp only [Dict.set, Dict.get?]
-    by_cases h : k' = k
-    · simp [h]
-    · simp [h, fun e : k = k' => h e.symm]
+    by_cases h : k = k'
+    · subst h; simp
+    · have h' : ¬ k' = k := fun e => h e.symm
+      simp [h, h']
   | cons kv d ih =>
     obtain ⟨k0, v0⟩ := kv
     simp only [Dict.set]
-    by_cases h0 : k0 = k
-    · subst h0
-      simp only [if_true, Dict.get?]
-      by_cases h : k' = k0
-      · simp [h]
-      · simp [h, fun e : k0 = k' => h e.symm]
-    · simp only [h0, if_false, Dict.get?]
+    split
+    · rename_i h0; subst h0
+      simp only [Dict.get?]
+      by_cases h : k0 = k'
+      · subst h; simp
+      · have h' : ¬ k' = k0 := fun e => h e.symm
+        simp [h, h']
+    · rename_i h0
+      simp only [Dict.get?]
       by_cases h1 : k0 = k'
-      · subst h1; simp [h0]
+      · subst h1; simp [show ¬ k0 = k from h0]
       · simp [h1, ih]
 
 theorem has_set (d : Dict β) (k k' : String) (v : β) :
@@ -203,8 +206,17 @@ theorem vs3fd_eq (nrm : K → K) (a b : K) (ri rj rk : V3 K) :
 
 theorem vs3fad_eq (nrm : K → K) (c s d : K) (ri rj rk : V3 K) :
     vs3fad nrm c s d ri rj rk = gmx3fad nrm c s d ri rj rk := by
-  unfold vs3fad gmx3fad
-  ext <;> v3simp <;> simp only [sdiv_x, sdiv_y, sdiv_z] <;> v3simp <;> ring
+  simp only [vs3fad, gmx3fad]
+  generalize nrm (V3.normSq (rj - ri)) = n1
+  generalize V3.dot (rj - ri) (rk - rj) = d1
+  generalize V3.dot (rj - ri) (rj - ri) = d2
+  have e : rk - rj - V3.sdiv (V3.smul d1 (rj - ri)) d2 = rk - rj - V3.smul (d1 / d2) (rj - ri) := by
+    ext <;> simp only [sub_x, sub_y, sub_z, sdiv_x, sdiv_y, sdiv_z, smul_x, smul_y, smul_z] <;> ring
+  rw [e]
+  generalize nrm (V3.normSq (rk - rj - V3.smul (d1 / d2) (rj - ri))) = n2
+  generalize rk - rj - V3.smul (d1 / d2) (rj - ri) = w
+  ext <;> simp only [add_x, add_y, add_z, sub_x, sub_y, sub_z, sdiv_x, sdiv_y, sdiv_z, smul_x, smul_y, smul_z] <;>
+    ring
 
 theorem vs3out_eq (a b c : K) (ri rj rk : V3 K) : vs3out a b c ri rj rk = gmx3out a b c ri rj rk := rfl
 
@@ -246,41 +258,41 @@ theorem gmxCog_aff [CharZero K] (A : M3 K) (t : V3 K) (xs : List (V3 K)) (hne : 
 
 /-! rigid motions: `x ↦ R·x + t` with `R` a proper rotation -/
 
+theorem aff_sub (R : M3 K) (t x y : V3 K) : aff R t x - aff R t y = R.mulVec (x - y) := by
+  unfold aff; ext <;> v3simp <;> ring
+
+theorem mulVec_sdiv (R : M3 K) (v : V3 K) (k : K) : R.mulVec (V3.sdiv v k) = V3.sdiv (R.mulVec v) k := by
+  ext <;> v3simp <;> simp only [sdiv_x, sdiv_y, sdiv_z] <;> ring
+
+theorem aff_add_mulVec (R : M3 K) (t x y : V3 K) : aff R t x + R.mulVec y = aff R t (x + y) := by
+  unfold aff; ext <;> v3simp <;> ring
+
 section rigid
 variable {R : M3 K} (hR : Proper R) (t : V3 K)
 include hR
 
-theorem aff_sub (x y : V3 K) : aff R t x - aff R t y = R.mulVec (x - y) := by
-  unfold aff; ext <;> v3simp <;> ring
-
-theorem mulVec_sdiv (v : V3 K) (k : K) : R.mulVec (V3.sdiv v k) = V3.sdiv (R.mulVec v) k := by
-  ext <;> v3simp <;> simp only [sdiv_x, sdiv_y, sdiv_z] <;> ring
-
-theorem aff_add_mulVec (x y : V3 K) : aff R t x + R.mulVec y = aff R t (x + y) := by
-  unfold aff; ext <;> v3simp <;> ring
-
 theorem gmx3fd_rigid (nrm : K → K) (a b : K) (ri rj rk : V3 K) :
     gmx3fd nrm a b (aff R t ri) (aff R t rj) (aff R t rk) = aff R t (gmx3fd nrm a b ri rj rk) := by
   unfold gmx3fd
-  simp only [aff_sub hR, ← mulVec_smul, ← mulVec_add, normSq_preserved hR.left, aff_add_mulVec hR]
+  simp only [aff_sub, ← mulVec_smul, ← mulVec_add, normSq_preserved hR.left, aff_add_mulVec]
 
 theorem gmx3out_rigid (a b c : K) (ri rj rk : V3 K) :
     gmx3out a b c (aff R t ri) (aff R t rj) (aff R t rk) = aff R t (gmx3out a b c ri rj rk) := by
   unfold gmx3out
-  simp only [aff_sub hR, cross_preserved hR, ← mulVec_smul, aff_add_mulVec hR]
+  simp only [aff_sub, cross_preserved hR, ← mulVec_smul, aff_add_mulVec]
 
 theorem gmx4fdn_rigid (nrm : K → K) (a b c : K) (ri rj rk rl : V3 K) :
     gmx4fdn nrm a b c (aff R t ri) (aff R t rj) (aff R t rk) (aff R t rl)
       = aff R t (gmx4fdn nrm a b c ri rj rk rl) := by
   unfold gmx4fdn
-  simp only [aff_sub hR, ← mulVec_smul, ← mulVec_sub, cross_preserved hR, normSq_preserved hR.left,
-    aff_add_mulVec hR]
+  simp only [aff_sub, ← mulVec_smul, ← mulVec_sub, cross_preserved hR, normSq_preserved hR.left,
+    aff_add_mulVec]
 
 theorem gmx3fad_rigid (nrm : K → K) (c s d : K) (ri rj rk : V3 K) :
     gmx3fad nrm c s d (aff R t ri) (aff R t rj) (aff R t rk) = aff R t (gmx3fad nrm c s d ri rj rk) := by
   unfold gmx3fad
-  simp only [aff_sub hR, dot_preserved hR.left, ← mulVec_smul, ← mulVec_sub, normSq_preserved hR.left,
-    aff_add_mulVec hR]
+  simp only [aff_sub, dot_preserved hR.left, ← mulVec_smul, ← mulVec_sub, normSq_preserved hR.left,
+    aff_add_mulVec]
 
 end rigid
 
@@ -290,7 +302,8 @@ theorem gmx3fd_dist (nrm : K → K) (a b : K) (ri rj rk : V3 K)
       = V3.normSq ((rj - ri) + V3.smul a (rk - rj)))
     (h0 : nrm (V3.normSq ((rj - ri) + V3.smul a (rk - rj))) ≠ 0) :
     V3.normSq (gmx3fd nrm a b ri rj rk - ri) = b * b := by
-  unfold gmx3fd
+  show V3.normSq (ri + V3.smul (b / nrm (V3.normSq ((rj - ri) + V3.smul a (rk - rj))))
+      ((rj - ri) + V3.smul a (rk - rj)) - ri) = b * b
   generalize nrm (V3.normSq ((rj - ri) + V3.smul a (rk - rj))) = n at hn h0
   have e : V3.normSq (ri + V3.smul (b / n) ((rj - ri) + V3.smul a (rk - rj)) - ri)
       = (b / n) * (b / n) * V3.normSq ((rj - ri) + V3.smul a (rk - rj)) := by
@@ -376,32 +389,45 @@ theorem maxList_mem (l : List Rat) (m : Rat) (h : maxList l = some m) : m ∈ l 
       · simp only [hgt, if_true] at h; subst h; simp [ih m' hl]
       · simp only [hgt, if_false] at h; simp [h]
 
+theorem computeVolume_eq (thr : Rat) (atoms : List VolAtom) :
+    computeVolume thr atoms =
+      if ((geomVects thr atoms).any fun v => !isZero v) = true
+      then Size.sqrtOf (radiusOfGyrationSq (geomVects thr atoms))
+      else match maxList (nearRadii thr atoms) with
+        | some r => Size.exact r
+        | none => Size.error := rfl
+
 /-- the size is positive when every radius is positive (largest-radius branch) or the squared radius of
 gyration is not zero (it is never negative) -/
 theorem computeVolume_positive (thr : Rat) (atoms : List VolAtom) (hrad : ∀ a ∈ atoms, 0 < a.rad) :
     (∀ q, computeVolume thr atoms = .sqrtOf q → q ≠ 0 → 0 < q) ∧
     (∀ r, computeVolume thr atoms = .exact r → 0 < r) := by
-  unfold computeVolume
   constructor
   · intro q hq hne
-    split at hq
-    · simp only [Size.sqrtOf.injEq] at hq
+    rw [computeVolume_eq] at hq
+    by_cases hany : ((geomVects thr atoms).any fun v => !isZero v) = true
+    · rw [if_pos hany] at hq
+      injection hq with hq
       subst hq
       exact lt_of_le_of_ne (radiusOfGyrationSq_nonneg _) (Ne.symm hne)
-    · split at hq <;> simp at hq
+    · rw [if_neg hany] at hq
+      cases hm : maxList (nearRadii thr atoms) <;> rw [hm] at hq <;> cases hq
   · intro r hr
-    split at hr
-    · simp at hr
-    · split at hr
-      · rename_i m hm
-        simp only [Size.exact.injEq] at hr
+    rw [computeVolume_eq] at hr
+    by_cases hany : ((geomVects thr atoms).any fun v => !isZero v) = true
+    · rw [if_pos hany] at hr; cases hr
+    · rw [if_neg hany] at hr
+      cases hm : maxList (nearRadii thr atoms) with
+      | none => rw [hm] at hr; cases hr
+      | some m =>
+        rw [hm] at hr
+        injection hr with hr
         subst hr
         have hmem := maxList_mem _ _ hm
         unfold nearRadii at hmem
         simp only [List.mem_map, List.mem_filter] at hmem
         obtain ⟨a, ⟨ha, _⟩, rfl⟩ := hmem
         exact hrad a ha
-      · simp at hr
 
 end volume
 
